@@ -134,6 +134,8 @@ def run(pid, tier):
         scenarios.append(sc)
         for s_, pos in ((3, "last"), (5, "first")):
             scenarios.append(runlib.barrier_scenario(s_, pos, chk.seed, linked=True))
+        scenarios.append(runlib.barrier_scenario(4, "middle", chk.seed, twice=True))
+        scenarios.append(runlib.barrier_scenario(5, "first", chk.seed, deps_arg=True))
         # a SIGPIPE reaches monorail while it is starting the members of a group (a reader of its output went away, or the
         # signal was simply sent): the group is started all the same
         for s_ in ((120,) if tier == "quick" else (120, 60, 200)):
@@ -164,6 +166,9 @@ def run(pid, tier):
             # monorail itself is sent a termination signal while a group is executing
             for k, (n, sg) in enumerate([(1, 15), (2, 2), (3, 1)] + ([(2, 15), (4, 1), (1, 2)] if tier == "thorough" else [])):
                 scenarios.append(runlib.interrupted_scenario(n, chk.seed * 41 + k, sg))
+        # a command listed more than once (directly, through overlapping sequences, through a sequence and --commands)
+        for k, (how, fs) in enumerate([("commands", False), ("sequences", pid == "C06"), ("sequence_and_commands", pid != "C05")]):
+            scenarios.append(runlib.repeated_commands_scenario(chk.seed * 43 + k, how, fs))
         if pid == "C05":
             # very wide groups: the run's grouping must still be analyze's grouping, every member started once
             scenarios.append(runlib.wide_scenario(150, chk.seed, mode="all"))
